@@ -146,6 +146,13 @@ class Mailbox:
         # if the nameplate is still allocated we'll get a foreign-key
         # failure when trying to delete the mailbox, so get rid of
         # those first
+        np_side_rows = [db.execute("SELECT * FROM `nameplate_sides`"
+                                   " WHERE `nameplates_id`=?",
+                                   (np_row["id"],)).fetchall()
+                        for np_row in
+                        db.execute("SELECT `id` FROM `nameplates`"
+                                   " WHERE `mailbox_id`=?",
+                                   (self._mailbox_id,)).fetchall()]
         db.execute("DELETE FROM `nameplate_sides` WHERE `nameplates_id` IN"
                    " (SELECT `id` FROM `nameplates` WHERE `mailbox_id`=?)",
                    (self._mailbox_id,))
@@ -158,6 +165,10 @@ class Mailbox:
                    (self._mailbox_id,))
         db.execute("DELETE FROM `mailboxes` WHERE `id`=?", (self._mailbox_id,))
         if self._usage_db:
+            # a nameplate deleted along with its mailbox is retired too
+            for np_sides in np_side_rows:
+                self._app._summarize_nameplate_and_store(np_sides, when,
+                                                         pruned=False)
             self._app._summarize_mailbox_and_store(for_nameplate, side_rows,
                                                 when, pruned=False)
             self._usage_db.commit()
